@@ -169,6 +169,16 @@ class Canon(ast.NodeTransformer):
 
     def visit_Assign(self, n):
         self.generic_visit(n)
+        # `a = b = <immutable literal>` is written as two assignments (for a
+        # mutable value the two names would share one object: not the same)
+        if len(n.targets) >= 2 and all(isinstance(t, ast.Name)
+                                       for t in n.targets) and (
+                isinstance(n.value, ast.Constant) or (
+                    isinstance(n.value, ast.Tuple) and all(
+                        isinstance(e, ast.Constant) for e in n.value.elts))):
+            import copy
+            return [ast.copy_location(ast.Assign([t], copy.deepcopy(n.value)),
+                                      n) for t in n.targets]
         # `a, b = x, y` (plain names, no name read on the right) is written
         # as two assignments
         if len(n.targets) == 1 and isinstance(n.targets[0], ast.Tuple) and \
@@ -224,6 +234,13 @@ class Canon(ast.NodeTransformer):
     def visit_Call(self, n):
         self.generic_visit(n)
         f = n.func
+        # tuple() / list() / dict() without arguments are the empty literals
+        if isinstance(f, ast.Name) and not n.args and not n.keywords and \
+                f.id in ('tuple', 'list', 'dict'):
+            lit = {'tuple': ast.Tuple([], ast.Load()),
+                   'list': ast.List([], ast.Load()),
+                   'dict': ast.Dict([], [])}[f.id]
+            return ast.copy_location(lit, n)
         # any([..]) == any(..): a list comprehension as the only argument of
         # a consuming builtin is written as a generator
         if isinstance(f, ast.Name) and f.id in (
